@@ -172,7 +172,14 @@ class Ctx:
             except OSError:
                 pass
             t = time.time()
-            rc, out = sh(["go", "build", "-tags", "verif", "-o", BIN + "/", "./cmd/..."],
+            modargs = []
+            if os.path.realpath(REPO) != "/repo":
+                # a scratch copy of the repository (VERIF_REPO): same module file, other replace target
+                alt = os.path.join(HARNESS, "go.alt.mod")
+                write_if_changed(alt, open(os.path.join(HARNESS, "go.mod")).read().replace("=> /repo", "=> " + os.path.realpath(REPO)))
+                shutil.copyfile(os.path.join(HARNESS, "go.sum"), os.path.join(HARNESS, "go.alt.sum"))
+                modargs = ["-modfile=" + alt]
+            rc, out = sh(["go", "build"] + modargs + ["-tags", "verif", "-o", BIN + "/", "./cmd/..."],
                          cwd=HARNESS, env=env_with_go(), timeout=900)
             self.harness_tagged = True
             if rc != 0:
@@ -377,7 +384,18 @@ class Ctx:
             kf = json.load(open(p))
         except OSError:
             kf = {"findings": [], "fixed": []}
-        return [f for f in kf.get("findings", []) if f.get("property") == self.prop]
+        fs = list(kf.get("findings", []))
+        for extra in sorted(glob.glob(os.path.join(VERIF, "known", "*.json"))):
+            fs += json.load(open(extra)).get("findings", [])
+        return [f for f in fs if f.get("property") == self.prop]
+
+    def is_known(self, cls):
+        """Is a failure of class `cls` (a short tag computed by the property's classifier) listed?"""
+        for f in self.load_known():
+            if f.get("class") == cls:
+                self.known_finding(f.get("id", cls), f.get("text", ""))
+                return True
+        return False
 
     def known_finding(self, tag, text):
         line = "KNOWN-FINDING: property=%s %s %s" % (self.prop, tag, text)
